@@ -61,7 +61,7 @@ def Header.WF (h : Header) : Prop := (h.metas.map Prod.fst).Nodup
 instance (h : Header) : Decidable h.WF := by unfold Header.WF; infer_instance
 
 /-- `if h2.Digest != nil && h.Digest.String() != h2.Digest.String() { return false }`
-    (Go dereferences a nil `h.Digest` here and panics; the model answers `false`
+    (since fix 290095d Go answers false for a nil `h.Digest`, as the model does
     — the harness never verifies an envelope whose own digest is nil, the
     panic belongs to C14) -/
 def digContains (d d2 : Option Digest) : Bool :=
@@ -125,7 +125,7 @@ namespace GoblVerif.WrittenAgainst
 
 def containsConds : List String :=
   ["h.UUID.String() != h2.UUID.String()",
-   "h2.Digest != nil && h.Digest.String() != h2.Digest.String()",
+   "h2.Digest != nil && (h.Digest == nil || h.Digest.String() != h2.Digest.String())",
    "s.Provider == s2.Provider && s.Value == s2.Value", "!match",
    "l.Key == l2.Key && l.URL == l2.URL", "!match",
    "t == t2", "!match",
